@@ -290,3 +290,169 @@ func modeC07(thorough bool) {
 	close(stop)
 	time.Sleep(200 * time.Millisecond)
 }
+
+// ---------------------------------------------------------------- C12: EDNS0 / ECS
+func modeC12(thorough bool) {
+	for _, ecs := range []bool{true, false} {
+		in, err := newInst(fmt.Sprintf("c12-ecs%v", ecs), instOpts{
+			listeners: []string{"udp", "tcp", "http", "fasthttp", "quic"},
+			upstreams: map[string]string{"u1": "udp", "u2": "tcp+pipeline"},
+			sets:      stdSets(),
+			rules:     []ruleSpec{{Set: "s1", Forward: "u1"}, {Forward: "u2"}},
+			cacheMem:  4 << 20,
+			ecs:       ecs,
+			xffHeader: "X-Client",
+		})
+		if err != nil {
+			panic(err)
+		}
+		type cl struct {
+			lst, src, xff string
+		}
+		clients := []cl{{"udp", "127.0.1.1", ""}, {"tcp", "127.0.7.9", ""}, {"quic", "127.0.8.8", ""},
+			{"http", "", "203.0.113.77"}, {"http", "", "2001:db8:abcd:1234:5678:9abc:def0:1"}, {"http", "", "::ffff:198.51.100.9"},
+			{"http", "", ""}, {"fasthttp", "", "2001:db8::1"}, {"fasthttp", "", "192.0.2.255, 10.1.1.1"}, {"fasthttp", "", ""}}
+		n := len(clients) * 4
+		par(n, func(i int) {
+			c := clients[i%len(clients)]
+			v := i / len(clients)
+			flag := []string{"", "fO", "fO", ""}[v]
+			zone := []string{"z1", "z3"}[i%2]
+			name := fmt.Sprintf("%s.r0t60d0%s.%s.test.", uniq(), flag, zone)
+			var hdr map[string]string
+			if c.xff != "" {
+				hdr = map[string]string{"X-Client": c.xff}
+			}
+			mk := func(opt, opts bool) qspec {
+				q := mkq(name)
+				q.opt, q.optopts = opt, opts
+				q.id = uint16(7000 + i)
+				return q
+			}
+			// uncached with OPT variants, then cached path with the opposite OPT presence
+			in.send(c.lst, c.src, mk(v%2 == 0, v == 2), 4*time.Second, hdr)
+			in.send(c.lst, c.src, mk(v%2 == 1, v == 1), 4*time.Second, hdr)
+			in.send(c.lst, c.src, mk(true, true), 4*time.Second, hdr)
+			in.send(c.lst, c.src, mk(false, false), 4*time.Second, hdr)
+		})
+		// unsupported queries carrying an OPT, and ones without
+		for _, lst := range []string{"udp", "tcp"} {
+			q := mkq(uniq() + ".r0t60d0.z1.test.")
+			q.rd, q.opt = false, true
+			in.send(lst, "127.0.1.1", q, 3*time.Second, nil)
+			q2 := mkq(uniq() + ".r0t60d0.z1.test.")
+			q2.opcode = 4
+			in.send(lst, "127.0.1.1", q2, 3*time.Second, nil)
+		}
+		in.close()
+	}
+}
+
+// ---------------------------------------------------------------- C08 / C19: timed cache scenarios
+// Each scenario runs on its own router instance (low load, so that the cache clock is not starved).
+type step struct {
+	at   time.Duration
+	n    int // number of concurrent identical queries
+	name string
+}
+
+func runTimed(tag string, o instOpts, prep func(in *inst), steps []step) {
+	in, err := newInst(tag, o)
+	if err != nil {
+		panic(err)
+	}
+	defer in.close()
+	if prep != nil {
+		prep(in)
+	}
+	t0 := time.Now()
+	var wg sync.WaitGroup
+	for _, st := range steps {
+		st := st
+		wg.Add(1)
+		go func() {
+			defer wg.Done()
+			time.Sleep(time.Until(t0.Add(st.at)))
+			par(st.n, func(i int) { in.send([]string{"udp", "tcp"}[i%2], "127.0.1.1", mkq(st.name), 8*time.Second, nil) })
+		}()
+	}
+	wg.Wait()
+	time.Sleep(150 * time.Millisecond)
+}
+
+func ms(x int) time.Duration { return time.Duration(x) * time.Millisecond }
+
+func modeC08(thorough bool, only string) {
+	base := instOpts{listeners: []string{"udp", "tcp"}, upstreams: map[string]string{"u1": "udp"}, rules: []ruleSpec{{Forward: "u1"}}, cacheMem: 4 << 20}
+	type sc struct {
+		tag   string
+		o     instOpts
+		prep  func(in *inst)
+		steps []step
+	}
+	var scs []sc
+	add := func(tag string, o instOpts, prep func(in *inst), steps ...step) { scs = append(scs, sc{tag, o, prep, steps}) }
+	n := func(lab string) string { return fmt.Sprintf("%s.%s.tm.test.", uniq(), lab) }
+	one := func(name string, ats ...int) []step {
+		var r []step
+		for _, a := range ats {
+			r = append(r, step{ms(a), 1, name})
+		}
+		return r
+	}
+	if only == "" || only == "c08" {
+		add("t-age", base, nil, one(n("r0t4d0fM"), 0, 300, 1250, 2400, 3300, 4500, 6600)...)
+		add("t-age2", base, nil, one(n("r0t6d0"), 0, 2100, 4100, 5050, 8300)...)
+		add("t-sf", base, nil, one(n("r2t0d0"), 0, 400, 3400)...)
+		add("t-ref", base, nil, one(n("r5t0d0"), 0, 2000, 7400)...)
+		add("t-nxsoa", base, nil, one(n("r3t3d0fA"), 0, 1000, 5400)...)
+		add("t-nodata", base, nil, one(n("r0t3d0fN"), 0, 1000, 5400)...)
+		add("t-ttl0", base, nil, one(n("r0t0d0"), 0, 300, 2600)...)
+		add("t-ttl1", base, nil, one(n("r0t1d0"), 0, 500, 3300)...)
+		mx := base
+		mx.maxTTL = 3
+		add("t-max", mx, nil, one(n("r0t60d0"), 0, 1000, 5400)...)
+		add("t-tc", base, nil, one(n("r0t60d0fT"), 0, 500, 1000)...)
+		add("t-fail", base, nil, one(n("r0t60d0fG"), 0, 500)...)
+		// positive entry, refresh answered by SERVFAIL / REFUSED: the old entry must stay
+		nd := n("r0t8d0")
+		add("t-nodisp", base, func(in *inst) { in.ups["u1"].setSeq(nd, "r0t8d0", "r2t0d0") }, one(nd, 0, 6400, 7000, 7300)...)
+		nd2 := n("r0t8d0")
+		add("t-nodisp5", base, func(in *inst) { in.ups["u1"].setSeq(nd2, "r0t8d0", "r5t0d0") }, one(nd2, 0, 6400, 7000, 7300)...)
+		if thorough {
+			add("t-nx30", base, nil, one(n("r3t600d0fA"), 0, 15000, 28000, 32500)...)
+			add("t-nodata30", base, nil, one(n("r0t300d0fN"), 0, 10000, 32500)...)
+			add("t-empty30", base, nil, one(n("r3t0d0"), 0, 20000, 32500)...)
+		}
+	}
+	if only == "" || only == "c19" {
+		// single flight: many hits in the refresh window while the refresh is stalled, then renewed TTLs
+		p1 := n("r0t8d0")
+		add("p-single", base, func(in *inst) { in.ups["u1"].setSeq(p1, "r0t8d0", "r0t8d1100") },
+			step{0, 1, p1}, step{ms(6300), 40, p1}, step{ms(6500), 40, p1}, step{ms(6900), 10, p1}, step{ms(7700), 4, p1}, step{ms(7900), 1, p1})
+		// failed refresh (connection failure, garbage): the old entry stays usable until it expires
+		p2 := n("r0t8d0")
+		add("p-fail", base, func(in *inst) { in.ups["u1"].setSeq(p2, "r0t8d0", "r0t8d50fG", "r0t8d50fG") },
+			step{0, 1, p2}, step{ms(6300), 8, p2}, step{ms(6800), 4, p2})
+		// many keys entering their refresh window at the same instant, 24 simultaneous hits each
+		for k := 0; k < 3; k++ {
+			var st []step
+			var names []string
+			for j := 0; j < 8; j++ {
+				names = append(names, n("r0t8d40"))
+				st = append(st, step{0, 1, names[j]})
+			}
+			for j := 0; j < 8; j++ {
+				st = append(st, step{ms(6250 + 60*k), 24, names[j]}, step{ms(6600), 2, names[j]})
+			}
+			add(fmt.Sprintf("p-burst%d", k), base, nil, st...)
+		}
+		p4 := n("r0t8d0")
+		add("p-sfreply", base, func(in *inst) { in.ups["u1"].setSeq(p4, "r0t8d0", "r2t0d30") },
+			step{0, 1, p4}, step{ms(6300), 8, p4}, step{ms(6800), 4, p4}, step{ms(6900), 1, p4})
+		p3 := n("r0t8d0")
+		add("p-silent", base, func(in *inst) { in.ups["u1"].setSeq(p3, "r0t8d0", "r0t8d0fS") },
+			step{0, 1, p3}, step{ms(6300), 8, p3}, step{ms(6900), 4, p3})
+	}
+	par(len(scs), func(i int) { runTimed(scs[i].tag, scs[i].o, scs[i].prep, scs[i].steps) })
+}
